@@ -130,6 +130,71 @@ theorem c04_lifecycle_clean : ∀ (hist : List (Bool × Ending)),
   intro hist
   exact gen hist {} ⟨rfl, by simp⟩
 
+/-! #### Evaluations that are abandoned WITHOUT being closed
+
+An `An` result iterator that is neither exhausted nor closed stays suspended: its `finally` block has not run, the
+node state is what the partial pass left.  `An.evaluate` marks the query as running (`_running_evaluation_`) and a
+later `evaluate()` that finds the mark first resets as after an incomplete pass (repair R31). -/
+
+inductive Ending' where
+  | completed | closedEarly | raised
+  | suspended     -- k results taken, the iterator kept alive and never advanced again
+  deriving DecidableEq, Repr
+
+/-- The state of a query object: its nodes, and whether an evaluation is marked as running. -/
+structure QSt where
+  node : NodeSt := {}
+  running : Bool := false
+  deriving DecidableEq, Repr
+
+/-- `if self._running_evaluation_ is not None: self._reset_after_evaluation_(completed=False)`. -/
+def start (s : QSt) : NodeSt := if s.running then resetAfter s.node false else s.node
+
+def duringQ (caching : Bool) (n : NodeSt) (e : Ending') : NodeSt :=
+  { dedupDirty := true,
+    caches := if !caching then n.caches
+              else match e with
+                | .completed => .complete
+                | _ => .partialPass }
+
+/-- One `An.evaluate()` call on a query object. -/
+def evaluateQ (caching : Bool) (s : QSt) (e : Ending') : QSt :=
+  let n := duringQ caching (start s) e
+  match e with
+  | .suspended => { node := n, running := true }                -- the `finally` block does not run
+  | _ => { node := resetAfter n (e == .completed), running := false }
+
+/-- Either an evaluation is marked as running, or the node state is clean. -/
+def Ready (s : QSt) : Prop := s.running = false → Clean s.node
+
+theorem clean_start (s : QSt) (h : Ready s) : Clean (start s) := by
+  unfold start
+  cases hr : s.running
+  · simpa using h hr
+  · simp [resetAfter, Clean]
+
+theorem ready_step (caching : Bool) (s : QSt) (e : Ending') (h : Ready s) : Ready (evaluateQ caching s e) := by
+  have hc := clean_start s h
+  cases e <;> cases caching <;> simp [evaluateQ, duringQ, resetAfter, Ready, Clean, hc.2]
+
+/-- **C04, life-cycle with suspended iterators.**  After every history of evaluations of a query object - run to the
+    end, closed early, aborted by an exception, or ABANDONED WITHOUT BEING CLOSED - the next evaluation starts from a
+    clean node state (no duplicate-tracking entries, no coverage claims of an incomplete pass). -/
+theorem c04_lifecycle_clean_suspended (hist : List (Bool × Ending')) :
+    Clean (start (hist.foldl (fun s p => evaluateQ p.1 s p.2) {})) := by
+  have gen : ∀ (hist : List (Bool × Ending')) (s : QSt), Ready s →
+      Ready (hist.foldl (fun s p => evaluateQ p.1 s p.2) s) := by
+    intro hist
+    induction hist with
+    | nil => intro s h; exact h
+    | cons p ps ih => intro s h; exact ih _ (ready_step p.1 s p.2 h)
+  exact clean_start _ (gen hist {} (fun _ => ⟨rfl, by simp⟩))
+
+/-- Without the start-of-evaluation reset the statement is false: a suspended pass with caching on leaves coverage
+    claims behind (the defect R31 repaired). -/
+example : ¬ Clean (evaluateQ true {} .suspended).node := by
+  simp [evaluateQ, duringQ, start, Clean]
+
 end Lifecycle
 
 /-- **Node state, L2, conjunctive fragment.**  With the result cache disabled, the stateful evaluator
